@@ -160,8 +160,9 @@ def to_dist(rs):
          "res_inner": 0, "res_timeout": 0, "res_pending": 0, "inadequate_schedule": 0}
     for r in rs:
         t = r["input"].split()
-        dd = int(t[1]); tt = None if t[2] == "-" else int(t[2])
+        dd = 10 ** 30 if t[1] == "max" else int(t[1]); tt = None if t[2] == "-" else int(t[2])
         d["zero_duration"] += dd == 0
+        d["max_duration"] = d.get("max_duration", 0) + (t[1] == "max")
         if tt is None: d["inner_never"] += 1
         elif tt < dd: d["inner_before"] += 1
         elif tt == dd: d["inner_at_deadline"] += 1
